@@ -1,6 +1,7 @@
 package main
 
 import (
+	"strconv"
 	"fmt"
 	"go/ast"
 	"go/token"
@@ -40,6 +41,7 @@ type Engine struct {
 	srcCache  map[string][]byte
 	canon     map[string]string
 	reLits    map[string]string
+	loopLock  map[string]map[int]string // function key -> loop ordinal -> signature, recorded on the unchanged tree
 }
 
 func (e *Engine) note(format string, args ...interface{}) {
@@ -58,6 +60,7 @@ func loadEngine(repoDir string, libDir string) (*Engine, error) {
 		return nil, err
 	}
 	e := &Engine{
+		loopLock: loadLoopLock(filepath.Join(libDir, "..", "loops.lock")),
 		pkgs: map[string]*packages.Package{}, funcs: map[string]*FuncInfo{}, contracts: map[string]*Contract{},
 		specFuncs: map[string]*SpecFunc{}, nullable: map[string]bool{}, ghostFields: map[string]string{}, evalWanted: map[string][]string{}, evalValues: map[string]interface{}{}, evalDone: map[string]bool{}, notes: map[string]bool{}, repoDir: repoDir,
 	}
@@ -390,4 +393,32 @@ func isRepoStruct(t types.Type) bool {
 		return true
 	}
 	return false
+}
+
+
+// loadLoopLock reads contracts/loops.lock: "<function key>\t<ordinal>\t<signature>" per line.
+func loadLoopLock(path string) map[string]map[int]string {
+	out := map[string]map[int]string{}
+	data, err := os.ReadFile(path)
+	if err != nil {
+		return out
+	}
+	for _, l := range strings.Split(string(data), "\n") {
+		if l == "" || strings.HasPrefix(l, "#") {
+			continue
+		}
+		f := strings.SplitN(l, "\t", 3)
+		if len(f) != 3 {
+			continue
+		}
+		n, err := strconv.Atoi(f[1])
+		if err != nil {
+			continue
+		}
+		if out[f[0]] == nil {
+			out[f[0]] = map[int]string{}
+		}
+		out[f[0]][n] = f[2]
+	}
+	return out
 }
